@@ -155,6 +155,18 @@ func genDagLoopBound(name string, k int) string {
 	return b.String()
 }
 
+// genConstSquaring: x := 3 squared k times, then used as a loop bound. The evaluator works on
+// arbitrary-precision integers: the VALUE doubles in size with every squaring.
+func genConstSquaring(name string, k int) string {
+	var b strings.Builder
+	fmt.Fprintf(&b, "func %s(n int) int {\n\tx := 3\n", name)
+	for i := 0; i < k; i++ {
+		b.WriteString("\tx = x * x\n")
+	}
+	b.WriteString("\ts := n\n\tfor i := 0; i < x; i++ {\n\t\ts += i\n\t}\n\treturn s\n}\n\n")
+	return b.String()
+}
+
 // (c) k nested counted loops.
 func genNested(name string, k int) string {
 	var b strings.Builder
@@ -317,6 +329,7 @@ func fpFamilies() []fpFamily {
 		{name: "dag-in-loop", quick: []int{6, 10, 14, 18, 22}, thor: []int{6, 10, 14, 18, 22, 26, 60, 120}, gen: genDagInLoop},
 		{name: "dag-chain-used-twice", quick: []int{6, 10, 14, 18, 22}, thor: []int{6, 10, 14, 18, 22, 26, 60, 120}, gen: genDagChain2},
 		{name: "dag-as-loop-bound", quick: []int{4, 8, 12, 16}, thor: []int{4, 8, 12, 16, 20}, gen: genDagLoopBound},
+		{name: "const-squaring-as-loop-bound", quick: []int{8, 12, 16, 20, 24}, thor: []int{8, 12, 16, 20, 24, 40, 80}, gen: genConstSquaring},
 		{name: "nested-loops", quick: []int{15, 30, 60, 70, 130}, thor: []int{15, 30, 60, 70, 130, 260}, gen: genNested},
 		{name: "sibling-loops", quick: []int{200, 400, 800, 1600}, thor: []int{100, 200, 400, 800, 1600}, gen: genSiblings},
 		{name: "phi-rotation", quick: []int{8, 16, 32, 64}, thor: []int{8, 16, 32, 64, 128, 256}, gen: genPhiRotation},
